@@ -35,7 +35,9 @@ RULE = ('tables of 2-7 columns (quick: mostly 3-5) x 60-120 rows from a random c
         'duplicated column) / indep / zero (Kendall tau with column 0 EXACTLY 0: x on a symmetric grid with '
         'x**2, rows mirrored in column 0, 9-row permutation grids; the first 8 tables of every run) / ties (yes-no flags, 3-5 level ratings, rounded columns next to '
         'continuous ones, re-drawn until the maximum spanning tree of |tau-a| is not one of |tau-b|; tables 9-14 of '
-        'every run); about 1 fit in 3 is a SECOND fit of an object first fitted on another table (columns permuted / '
+        'every run); the truncation t in 1..d+1 is passed as fit(X, t), fit(X, truncated=t), fit(X=X, truncated=t) or omitted '
+        '(then t = the default 3); the search additionally runs every t in 1..d+1 in every call form on small '
+        'tables; about 1 fit in 3 is a SECOND fit of an object first fitted on another table (columns permuted / '
         'fresh same width / narrower / wider, own truncation) and is compared with a fresh object; the tau matrix '
         'the first Tree.fit received is compared (1e-12) with Kendall tau-b computed independently by '
         'scipy.stats.kendalltau, which is also the weight of the MST clause; each fitted as center, direct and regular vine with truncation t in 1..d. '
@@ -251,7 +253,30 @@ def time_limit(seconds):
         signal.signal(signal.SIGALRM, old)
 
 
-def real_fit(X, vt, t, history=()):
+FORMS = ('keyword', 'positional', 'default', 'x-keyword')
+FORM_W = (8, 7, 3, 2)
+DEFAULT_TRUNCATED = 3       # `def fit(self, X, truncated=3)` (vine.py); what a call without the argument means
+FORM_TEXT = {'keyword': 'fit(X, truncated=t)', 'positional': 'fit(X, t)', 'default': 'fit(X)',
+             'x-keyword': 'fit(X=X, truncated=t)'}
+
+
+def pick_call(rng, d):
+    """(call form, truncation the CALLER asked for): t in 1..d+1, or the default when the argument is omitted."""
+    form = rng.choices(FORMS, FORM_W)[0]
+    return form, (DEFAULT_TRUNCATED if form == 'default' else rng.randint(1, d + 1))
+
+
+def call_fit(v, X, t, form):
+    if form == 'positional':
+        return v.fit(X, t)
+    if form == 'default':
+        return v.fit(X)
+    if form == 'x-keyword':
+        return v.fit(X=X, truncated=t)
+    return v.fit(X, truncated=t)
+
+
+def real_fit(X, vt, t, history=(), form='keyword'):
     """Fit ONE VineCopula object on every (table, truncated) of `history` and then on (X, t); the Tree.fit
     snapshots are those of the LAST fit only.
     -> ('ok', vine, snapshots) | ('timeout', None, None) | ('exc', exception, None)"""
@@ -263,11 +288,11 @@ def real_fit(X, vt, t, history=()):
         stage = 'history'
         with time_limit(limit * (1 + len(history))):
             v = VineCopula(vt)
-            for Xh, th in history:
-                v.fit(Xh, truncated=th)
+            for Xh, th, fh in history:
+                call_fit(v, Xh, th, fh)
             stage = 'last'
             with capture_tree_fits() as log:
-                v.fit(X, truncated=t)
+                call_fit(v, X, t, form)
         return 'ok', v, log
     except FitTimeout:
         _TIMEOUTS[vt] = _TIMEOUTS.get(vt, 0) + 1
@@ -428,11 +453,13 @@ def compare_trees(model, real):
     return None
 
 
-def table_input(X, vt, t, history=()):
-    inp = {'columns': list(X.columns), 'rows': X.to_numpy().tolist(), 'vine_type': vt, 'truncated': int(t)}
+def table_input(X, vt, t, history=(), form='keyword'):
+    inp = {'columns': list(X.columns), 'rows': X.to_numpy().tolist(), 'vine_type': vt, 'truncated': int(t),
+           'call_form': form, 'call': FORM_TEXT[form]}
     if history:
         inp['fitted_before_on_the_same_object'] = [
-            {'columns': list(Xh.columns), 'rows': Xh.to_numpy().tolist(), 'truncated': int(th)} for Xh, th in history]
+            {'columns': list(Xh.columns), 'rows': Xh.to_numpy().tolist(), 'truncated': int(th), 'call_form': fh}
+            for Xh, th, fh in history]
     return inp
 
 
@@ -452,7 +479,8 @@ def gen_history(rng, X, d):
     else:
         kind = 'fresh-same-width'
         A = gen_table(rng, d, rng.choice(['plain', 'swap', 'ties']))
-    return kind, [(A, rng.randint(1, A.shape[1]))]
+    fh, th = pick_call(rng, A.shape[1])
+    return kind, [(A, th, fh)]
 
 
 def tau_matrix_diff(tau_first, tau_ref):
@@ -525,7 +553,8 @@ def run(ctx, lean):
         off = sorted(abs(tau0[i, j]) for i in range(d) for j in range(i))
         tied = any(a == b for a, b in zip(off, off[1:]))
         for vt in TYPES:
-            t = rng.randint(1, d)
+            form, t = pick_call(rng, d)     # t = the truncation the caller's call means
+            ctx.count(f'call: {FORM_TEXT[form]}')
             ctx.count(f'type={vt}')
             ctx.count(f'd={d}')
             ctx.count(f'mode={mode}')
@@ -533,14 +562,14 @@ def run(ctx, lean):
             if it % 4 == 1 or rng.random() < 0.2:   # refit history: the same object was fitted on another table
                 hkind, hist = gen_history(rng, X, d)
                 ctx.count(f'history: second fit on the same object, first table {hkind}')
-            st, v, log = real_fit(X, vt, t, hist)
+            st, v, log = real_fit(X, vt, t, hist, form)
             if st == 'skipped':
                 ctx.count(f'skipped after {MAX_TIMEOUTS_PER_TYPE} non-terminating fits: {vt}')
                 continue
             if st == 'timeout':
                 ctx.case()
                 note('corr:fit-terminates', {'mode': mode, 'type': vt, 'd': d, 't': t, 'history': hkind})
-                ctx.fail_input('VineCopula.fit', table_input(X, vt, t, hist),
+                ctx.fail_input('VineCopula.fit', table_input(X, vt, t, hist, form),
                                'no result within the time limit (a fit takes < 1 s)', 'fit terminates',
                                'VineCopula.fit:does-not-terminate' if not hist else 'VineCopula.refit:does-not-terminate')
                 continue
@@ -563,12 +592,13 @@ def run(ctx, lean):
                 if df:
                     note('corr:tau_matrix = independent Kendall tau-b', dict(df, type=vt, d=d, mode=mode))
             ctx.case((vt, d, t, struct_key(real), tau0.tobytes(), hkind), nontrivial=d >= 3)
-            ctx.count(f't={"<d-1" if t < d - 1 else ">=d-1"}')
+            ctx.count(f't={"<d-1" if t < d - 1 else "=d-1" if t == d - 1 else ">d-1"}')
             if tied:
                 ctx.count('first-tree |tau| ties')
             want = max(1, min(d - 1, t))
             if len(real) != want or len(log) != len(real):
-                note('corr:tree_count', {'type': vt, 'd': d, 't': t, 'trees': len(real), 'expected': want})
+                note('corr:tree_count', {'type': vt, 'd': d, 't': t, 'call': FORM_TEXT[form], 'trees': len(real),
+                                         'expected': want})
             # (i)+(ii) replay (of the trees the last fit built; a count mismatch was noted above)
             m = min(len(real), len(log))
             reqs = []
@@ -915,17 +945,18 @@ def kruskal_max(w):
     return out
 
 
-def check_real(ctx, X, vt, t, counts, history=()):
-    """Oracle on the state after the LAST fit of one object (fitted on `history` first, if any)."""
+def check_real(ctx, X, vt, t, counts, history=(), form='keyword'):
+    """Oracle on the state after the LAST fit of one object (fitted on `history` first, if any); `t` is the
+    truncation the caller's call means (the default when the argument is omitted), `form` how it was passed."""
     d = X.shape[1]
     tau_ref = tau_b_matrix(X.to_numpy())
-    st, v, log = real_fit(X, vt, t, history)
+    st, v, log = real_fit(X, vt, t, history, form)
     if st == 'skipped':
         return False
     counts['fits'] += 1
     ep = 'VineCopula.fit' if not history else 'VineCopula.fit (second fit on the same object)'
     pre = f'VineCopula.fit[{vt}]' if not history else f'VineCopula.refit[{vt}]'
-    inp = table_input(X, vt, t, history)
+    inp = table_input(X, vt, t, history, form)
     if st == 'timeout':
         counts['failures'] += 1
         ctx.fail_input(ep, inp, 'no result within the time limit (a fit takes < 1 s)',
@@ -946,6 +977,12 @@ def check_real(ctx, X, vt, t, counts, history=()):
             return True
         return False
     probs = oracle(v, vt, d, t, tau_ref, log[0]['tau'] if log else None)
+    got, dflt = len(v.trees), max(1, min(d - 1, DEFAULT_TRUNCATED))
+    if not history and form != 'default' and got != max(1, min(d - 1, t)) and got == dflt:
+        # the depth is that of the default truncation, not of the one passed
+        ctx.fail_input(ep, inp, {'trees': got, 'expected': max(1, min(d - 1, t)), 'depth_of_default_truncation': dflt},
+                       'the vine has max(1, min(d-1, t)) trees for the truncation t the caller passed',
+                       'VineCopula.fit:truncation-argument-ignored')
     if history and fresh[0] == 'ok':
         df = refit_vs_fresh(vt, extract(v), log, extract(fresh[1]), fresh[2])
         if df:
@@ -977,12 +1014,22 @@ def search(ctx, deep):
             d, mode = 3 + it % 3, 'ties'
         X = gen_table(rng, d, mode)
         for vt in TYPES:
-            for t in ([rng.randint(1, d)] if not deep else sorted({1, rng.randint(1, d), d - 1 if d > 2 else 1, d})):
-                check_real(ctx, X, vt, t, counts)
+            for t in ([rng.randint(1, d + 1)] if not deep else sorted({1, rng.randint(1, d), d - 1 if d > 2 else 1, d + 1})):
+                check_real(ctx, X, vt, t, counts, form=rng.choices(FORMS[:2] + FORMS[3:], (4, 4, 1))[0])
             if it % 3 == 0 or deep:                 # the same object fitted on another table first
                 kind, hist = gen_history(rng, X, d)
                 counts['refits'] = counts.get('refits', 0) + 1
-                check_real(ctx, X, vt, rng.randint(1, d), counts, hist)
+                fr, tr = pick_call(rng, d)
+                check_real(ctx, X, vt, tr, counts, hist, fr)
+    # every truncation 1..d+1 on small tables, passed positionally / by keyword / with X by keyword / omitted
+    for d in ((2, 3, 4) if not deep else (2, 3, 4, 5, 6)):
+        X = gen_table(rng, d, rng.choice(['plain', 'discrete', 'swap']))
+        for vt in TYPES:
+            for t in range(1, d + 2):
+                for form in (('positional', 'keyword') if not deep else ('positional', 'keyword', 'x-keyword')):
+                    counts['call-form fits'] = counts.get('call-form fits', 0) + 1
+                    check_real(ctx, X, vt, t, counts, form=form)
+            check_real(ctx, X, vt, DEFAULT_TRUNCATED, counts, form='default')
     ctx.support = dict(counts, deep=deep)
 
 
@@ -991,7 +1038,7 @@ def replay(ctx, payload):
     X = pd.DataFrame(np.array(inp['rows'], dtype=float), columns=inp['columns'])
     counts = {'fits': 0, 'checked': 0, 'refused': 0, 'failures': 0}
     before = len(ctx.failing)
-    hist = [(pd.DataFrame(np.array(h['rows'], dtype=float), columns=h['columns']), h['truncated'])
-            for h in inp.get('fitted_before_on_the_same_object', [])]
-    check_real(ctx, X, inp['vine_type'], inp['truncated'], counts, hist)
+    hist = [(pd.DataFrame(np.array(h['rows'], dtype=float), columns=h['columns']), h['truncated'],
+             h.get('call_form', 'keyword')) for h in inp.get('fitted_before_on_the_same_object', [])]
+    check_real(ctx, X, inp['vine_type'], inp['truncated'], counts, hist, inp.get('call_form', 'keyword'))
     return any(f['class'] == payload.get('class') for f in ctx.failing[before:])
